@@ -163,6 +163,7 @@ def universe(tier):
     yield from precsame(tier)
     yield from samepred(tier)
     yield from dupedge(tier)
+    yield from atstart(tier)
 
 
 LONG_GAPS = ["1m", "2m", "1.5m", "1y", "5w", "45d", "1000h", "0.5y"]
@@ -252,6 +253,34 @@ def precsame_spec(it):
     return {"dur": "4w", "alap": it["alap"], "resources": [{"id": "r1"}, {"id": "r2"}, {"id": "r3"}], "tasks": [p1, p2, rel]}
 
 
+def atstart(tier):
+    """a predecessor whose end (on-end edge) or start (on-start edge) lies EXACTLY on the project start: a kick-off milestone without
+    dependencies, or - in a project that begins at 09:00 - the first task; the edge carries a gap; own edge and edge inherited from a container"""
+    for form in ("kick", "kick-inherited", "first-onstart", "first-onstart-inherited"):
+        for gap in ("2d", "3h", "90min"):
+            for L in (60, 30):
+                yield {"kind": "atstart", "form": form, "gap": gap, "L": L}
+
+
+def atstart_spec(it):
+    leaf = lambda i, m, r, **kw: {"id": i, "effort": m, "alloc": [r], **kw}  # noqa: E731
+    form = it["form"]
+    spec = {"dur": "3w", "res_min": it["L"] if it["L"] != 60 else None, "resources": [{"id": "r1"}, {"id": "r2"}]}
+    if form.startswith("kick"):
+        d = {"ref": "kick", "gap": it["gap"]}
+        pre = {"id": "kick", "milestone": True}
+    else:
+        spec["start"] = "2025-01-06-09:00"
+        d = {"ref": "first", "gap": it["gap"], "onstart": True}
+        pre = leaf("first", 240, "r1")
+    if form.endswith("inherited"):
+        succ = {"id": "g", "deps": [d], "children": [leaf("x", 120, "r2"), leaf("y", 60, "r2", deps=["!x"])]}
+    else:
+        succ = leaf("x", 120, "r2", deps=[d])
+    spec["tasks"] = [pre, succ]
+    return spec
+
+
 def dupedge(tier):
     """the SAME predecessor stated twice for one task with different gaps (every edge applies): twice in one list, in two
     depends statements, as 'precedes' on the predecessor next to 'depends' on the task, twice in one precedes list"""
@@ -317,6 +346,8 @@ def to_spec(it):
         return precsame_spec(it)
     if it.get("kind") == "dupedge":
         return dupedge_spec(it)
+    if it.get("kind") == "atstart":
+        return atstart_spec(it)
     if it.get("kind") == "mixedgap":
         return mixedgap_spec(it)
     if it.get("kind") == "longgap":
